@@ -100,6 +100,112 @@ KANI_UNITS["C09"] = dict(
     assumptions=EVAL_STUBS + ["cfg(kani) re-export shim appended to sase.rs (1 one-line wrapper)"],
 )
 
+KANI_UNITS["C40"] = dict(
+    prop="C40", crate="varpulis-core",
+    appends=[("crates/varpulis-core/src/value.rs", "__vpv_c40", "contracts/kani/c40.rs")],
+    grade="K-complete", level="other", timeout=2400, harness_timeout=600,
+    cell_grades={"c40_array_": "K-bounded(arrays of <= 2 elements, depth <= 2)", "_str": "K-bounded(1-character ASCII strings)"},
+    functions=["varpulis-core/src/value.rs: impl PartialEq for Value (eq), float_eq, impl Hash for Value (hash)"],
+    explanation=("PARTIAL (scalars complete, arrays bounded, MAPS NOT DECIDED). Per scalar variant, three symbolic values with full-domain payloads: == is reflexive, symmetric, "
+                 "transitive, and a == b implies that Hash::hash feeds the SAME BYTE STREAM to a recording hasher (hence equal hashes for every hasher). A cross-kind cell "
+                 "shows values of different variants are never equal, which reduces mixed transitivity to the same-kind cells. The float cell pins NaN == NaN and -0.0 == 0.0 "
+                 "together with their hash normalisation. Arrays: <= 2 scalar elements, depth <= 2 (bounded). NOT decided: the Map arm — Hash walks map.iter() in insertion order "
+                 "while IndexMap's == ignores order, so {a:1,b:2} and {b:2,a:1} are (by reading) equal with different byte streams; a Kani harness that builds two 2-entry "
+                 "IndexMaps does not finish (hash-map insertion is out of CBMC's reach), so this suspected defect can be neither exhibited nor excluded here."),
+    assumptions=["the recording Hasher (48-byte log) observes exactly the bytes Hash::hash writes; streams longer than 48 bytes are treated as a failed obligation, never as equal"],
+)
+
+KANI_UNITS["C45"] = dict(
+    prop="C45", crate="varpulis-runtime",
+    appends=[("crates/varpulis-runtime/src/circuit_breaker.rs", "__vpv_c45", "contracts/kani/c45.rs")],
+    grade="K-complete", level="other", timeout=2400, harness_timeout=600,
+    functions=["varpulis-runtime/src/circuit_breaker.rs: CircuitBreaker::new, allow_request, record_success, record_failure, state"],
+    explanation=("PARTIAL (breaker only; 'never loses an event' NOT decided). The contract is the 20-line step function spec_step (contracts/kani/c45.rs). Loop-free cells over ALL "
+                 "inner states (state x consecutive_failures x last_failure present/absent), all thresholds >= 1, all reset timeouts and all elapsed times prove that each real "
+                 "method implements spec_step exactly: Closed admits; record_failure in Closed opens iff failures+1 >= threshold (hence after exactly `threshold` consecutive "
+                 "failures, by induction on the counter); Open rejects while now - last_failure < reset_timeout, then moves to HalfOpen and admits that one request; HalfOpen admits "
+                 "nothing until record_success (closes, zeroes the counter) or record_failure (reopens). All state is behind one Mutex and each method is one critical section, so "
+                 "any interleaving of concurrent senders is a sequence of these steps. NOT covered: ResilientSink::send/send_batch and DeadLetterQueue (async + file I/O): "
+                 "'every event is delivered or written to the DLQ' is not decided here."),
+    assumptions=["kani::stub std::time::Instant::elapsed -> Duration from a harness-controlled value (virtual clock)",
+                 "kani::stub std::time::Instant::now -> fixed Instant built by transmuting (i64 secs, u32 nanos) (layout assumption: size_of::<Instant>() == 16)",
+                 "std::sync::Mutex is a mutex (concurrency argument); consecutive_failures < u32::MAX (2^32 consecutive failures would overflow the counter)"],
+)
+
+KANI_UNITS["C20"] = dict(
+    prop="C20", crate="varpulis-runtime",
+    appends=[("crates/varpulis-runtime/src/persistence.rs", "__vpv_c20", "contracts/kani/c20.rs")],
+    grade="K-complete", level="other", timeout=2400, harness_timeout=600,
+    cell_grades={"c20_array": "K-bounded(arrays of <= 2 elements, depth <= 2)", "c20_str": "K-bounded(2-byte strings)"},
+    functions=["varpulis-runtime/src/persistence.rs: value_to_serializable, serializable_to_value (scalar, Str and Array arms)"],
+    explanation=("PARTIAL (value conversion layer only). For every scalar variant with full-domain payload (floats bit-for-bit, incl. NaN payloads, +-inf, -0.0) "
+                 "serializable_to_value(value_to_serializable(&v)) returns v and the intermediate SerializableValue has the matching variant and payload; 2-byte strings and arrays of "
+                 "<= 2 elements / depth <= 2 are bounded stand-ins. NOT decided: (0) the Map arms and the event field map (hash-map insertion is out of CBMC's reach); (a) the "
+                 "JSON / MessagePack codec and format auto-detection (serde) — so 'NaN is written as null and cannot be read back' is not decided; (b) the timestamp round trip "
+                 "(timestamp_millis -> from_timestamp_millis, which by reading truncates sub-millisecond precision) needs a symbolic DateTime and chrono arithmetic is out of "
+                 "CBMC's reach — reported as unchecked, not as a finding, because this machinery cannot exhibit it."),
+    assumptions=["Vec / Box<str> / String from std behave as specified (CBMC models them through their real implementation)"],
+)
+
+KANI_UNITS["C30"] = dict(
+    prop="C30", crate="varpulis-cluster",
+    appends=[("crates/varpulis-cluster/src/rate_limit.rs", "__vpv_c30", "contracts/kani/c30.rs")],
+    grade="K-complete", level="other", timeout=3600, harness_timeout=900,
+    cell_grades={"c30_reset_after_rate1$|c30_reset_after_rate50$": "K-bounded(concrete rate)"},
+    functions=["varpulis-cluster/src/rate_limit.rs: TokenBucket::new, TokenBucket::remaining, TokenBucket::reset_after, RateLimitConfig::new"],
+    explanation=("PARTIAL: only the second sentence of the property (finite retry-after, no panic for any accepted configuration) is decided. Loop-free cells over all u32 "
+                 "configurations (rate 0 and burst 0 included) and all f64 token levels with 0 <= tokens <= max_tokens: TokenBucket::new establishes the invariant; remaining never "
+                 "panics; reset_after returns without panicking a finite Duration (zero when a token is available, <= 1 s when rate >= 1). NOT decided: the admission bound "
+                 "'admitted <= burst + rate*T' — it rests on the step contract of try_consume/refill, a product of two symbolic f64s (elapsed*rate), which CBMC did not finish in five "
+                 "variants (>15 min each) and Verus cannot express (no float support); a mutation of refill/try_consume is therefore NOT detected. RateLimiter::check (async, tokio "
+                 "RwLock, per-IP map and eviction) is not covered."),
+    assumptions=["kani::stub std::time::Instant::now -> fixed Instant (transmute of (i64,u32); layout assumption)",
+                 "bucket states are restricted to the representation invariant 0 <= tokens <= max_tokens (established by new; its preservation by refill/try_consume is NOT proved)"],
+)
+
+KANI_UNITS["C33"] = dict(
+    prop="C33", crate="varpulis-cluster",
+    appends=[("crates/varpulis-cluster/src/lib.rs", "__vpv_c33", "contracts/kani/c33.rs")],
+    grade="K-complete", level="other", timeout=3600, harness_timeout=900,
+    cell_grades={"c33_rr_|c33_ll_": "K-bounded(<= 2 candidate workers)"},
+    functions=["varpulis-cluster/src/worker.rs: WorkerNode::is_available", "varpulis-cluster/src/lib.rs: RoundRobinPlacement::place, LeastLoadedPlacement::place"],
+    explanation=("PARTIAL. is_available is proved (all statuses x all usize capacities) to be true exactly for Ready workers with spare capacity — never for Unhealthy, Draining or "
+                 "Registering. place(): None iff the candidate slice is empty, otherwise the id of ONE OF THE CANDIDATES (round-robin: candidate[counter mod n] for every counter value "
+                 "incl. wrap-around, counter advanced by one; least-loaded: membership, and the smaller load when core counts are equal) — bounded to <= 2 candidates. NOT decided: "
+                 "health_sweep / heartbeat timing (iterate a HashMap<WorkerId, WorkerNode> and log through tracing: out of Kani's reach), the call sites that filter candidates by "
+                 "is_available and honour affinity (plan_deploy_group, migrate, failover: lock + HTTP code). So the timing half of the property and 'pinned goes to its pinned worker' "
+                 "are outside this check."),
+    assumptions=["kani::stub-free: Instant built by transmute of (i64,u32) for WorkerNode::last_heartbeat (layout assumption)"],
+)
+
+KANI_UNITS["C34"] = dict(
+    prop="C34", crate="varpulis-cluster",
+    appends=[("crates/varpulis-cluster/src/routing.rs", "__vpv_c34", "contracts/kani/c34.rs")],
+    grade="K-bounded(ASCII strings of length <= 2 (quick) / <= 3 (thorough); <= 2 routes x <= 2 patterns)", level="other", timeout=3600, harness_timeout=1200,
+    functions=["varpulis-cluster/src/routing.rs: event_type_matches, find_target_pipeline"],
+    explanation=("PARTIAL, BOUNDED (route matching only). event_type_matches agrees with a byte-level specification ('*' matches all, 'p*' is a prefix test, otherwise equality) for all "
+                 "ASCII strings up to the stated length; find_target_pipeline returns the target of the FIRST matching route in declaration order (patterns of a route in order), "
+                 "else the group's first pipeline, else None. NOT decided: ReplicaGroup::select_replica — it contains a tracing::warn!, and every function reaching tracing's "
+                 "thread-local dispatcher crashes kani-compiler 0.68; so neither 'round-robin loads differ by at most one' nor hash-key stickiness is checked, and single-vs-batch key "
+                 "construction lives in async coordinator code."),
+    assumptions=["group assembled with empty HashMaps (no insertion); Instant by transmute (layout assumption)"],
+)
+
+KANI_UNITS["C43"] = dict(
+    prop="C43", crate="varpulis-lsp",
+    appends=[("crates/varpulis-lsp/src/diagnostics.rs", "__vpv_c43a", "contracts/kani/c43_diag.rs"),
+             ("crates/varpulis-lsp/src/navigation.rs", "__vpv_c43b", "contracts/kani/c43_nav.rs"),
+             ("crates/varpulis-lsp/src/hover.rs", "__vpv_c43c", "contracts/kani/c43_hover.rs")],
+    grade="K-bounded(documents of <= 2 characters (thorough 3) over the alphabet {a _ space newline é 1}; positions 0..=len+1)", level="other", timeout=3600, harness_timeout=1500, jobs=8,
+    functions=["varpulis-lsp/src/diagnostics.rs: position_to_line_col, get_error_end_column", "varpulis-lsp/src/navigation.rs: byte_offset_to_position, word_at_position",
+               "varpulis-lsp/src/hover.rs: get_word_at_position"],
+    explanation=("PARTIAL, BOUNDED (position helpers only). For every document up to the stated size over an alphabet that includes a newline and a 2-byte character, and every "
+                 "position from 0 to just past the end: the helpers return without panicking; line <= number of newlines; column <= number of characters; a returned word is "
+                 "non-empty and not longer than the document; an error range's end is after its start. NOT covered: the request handlers themselves (tower-lsp, parser), "
+                 "completion and semantic tokens."),
+    assumptions=["documents are drawn from a 6-character alphabet (bounded stand-in for 'all documents')"],
+)
+
 
 def write_undecided(prop, tier, reason, wall):
     u = KANI_UNITS.get(prop) or VERUS_UNITS.get(prop) or {}
